@@ -238,6 +238,10 @@ def history_instances(ctx):
 def run(ctx: Ctx) -> None:
     C.drivers()
     sp = C01.specs(ctx)
+    if ctx.quick:
+        # five items on 4x4: the smallest bin on which an item can slide
+        # under an exactly fitting overhang and fall again afterwards
+        sp = sp + [(4, 4, 5, 5)]
     r = C.explore_trees(ctx, sp)
     ctx.add("states", r["nodes"])
     ctx.add("transitions", r["nodes"])
